@@ -11,10 +11,10 @@ Never commits anything in /repo.
 import json, os, re, shutil, subprocess, sys
 
 ARGS = [a for a in sys.argv[1:] if not a.startswith("--")]
-ROUND = 4 if "--round4" in sys.argv else (3 if "--round3" in sys.argv else (2 if "--round2" in sys.argv else 1))
+ROUND = next((int(a[len("--round"):]) for a in sys.argv[1:] if re.fullmatch(r"--round\d+", a)), 1)
 ID = ARGS[0]
 EXTRA = ARGS[1:]
-BASE = {1: "/tmp/wt", 2: "/tmp/wt2", 3: "/tmp/wt3", 4: "/tmp/wt4"}[ROUND]
+BASE = "/tmp/wt" if ROUND == 1 else f"/tmp/wt{ROUND}"
 OFFSET = 3 * (ROUND - 1)
 WT = f"{BASE}/{ID}"
 OUT = f"{BASE}/{ID}-out"
